@@ -114,6 +114,42 @@ def check_orduse(crate, rep, cfg):
         ok, why = False, "a second membership structure is used: %s" % other[:2]
     rep.add("C16.ORDUSE", "C16.ORDUSE:unique:decided-by-the-value-set-alone", ok, uq.where(pushes[0][0]) if pushes else uq.where(0), "an element is kept exactly when "
             "BTreeSet<Value>::insert/contains says it is new; no other set or map takes part" + ("" if ok else " — VIOLATED: " + why))
+    # group_by partitions: an element is appended to the group of its key, and a group is created only when that key has none yet —
+    # an insert that can hit an existing key throws the earlier group away
+    import rrec
+    gb = crate.one("filters::group_by")
+    rep.analysed(gb)
+    gtr = Tracer(gb)
+    gef = EdgeFacts(gb, crate)
+
+    def on_groups(t):
+        a0 = (t["atys"][0] if t["atys"] else "").replace(" ", "")
+        return "HashMap<value::key::Key" in a0 and "Vec<value::Value>" in a0
+    ins = [(bb, t) for bb, t in gb.calls() if callee_def(t).endswith("::insert") and on_groups(t)]
+    looks = [(bb, t) for bb, t in gb.calls() if callee_def(t).rsplit("::", 1)[-1] in ("get_mut", "get", "contains_key") and on_groups(t)]
+    entries = [(bb, t) for bb, t in gb.calls() if callee_def(t).endswith("::entry") and on_groups(t)]
+    ok = bool(ins) or bool(entries)
+    why = "no insert / entry on the groups map"
+    for bb, t in ins:
+        kl = {(l.kind, l.detail) for l in gtr.operand(t["args"][1]) if l.kind != "cycle"}
+        good = False
+        for lb, lt in looks:
+            lk = {(l.kind, l.detail) for l in gtr.operand(lt["args"][1]) if l.kind != "cycle"}
+            if not kl or kl != lk:
+                continue
+            name = callee_def(lt).rsplit("::", 1)[-1]
+            if name == "contains_key":
+                absent = [tgt for sb in sorted(gb.reachable) if gb.term(sb)["k"] == "switch" for tgt, fl in gef.facts_for_switch(sb).items() for f in fl
+                          if f[0] == "call" and f[4] == lb and f[3] is False]
+            else:
+                some = rrec.ok_edges_of_call(gb, crate, lb)
+                absent = [x for sb, tgt in some for x in gb.succ[sb] if x != tgt and gb.term(x)["k"] != "unreachable"]
+            if any(gb.dominates(a, bb) for a in absent):
+                good = True
+        if not good:
+            ok, why = False, "the insert at %s is not on the key-absent edge of a lookup of the same key in the same map" % gb.where(bb)
+    rep.add("C16.ORDUSE", "C16.ORDUSE:group_by:insert-never-overwrites", ok, gb.where(ins[0][0]) if ins else gb.where(0), "group_by creates a group (HashMap::insert) only on the "
+            "absent edge of a lookup of that key — existing groups are only appended to" + ("" if ok else " — VIOLATED: " + why))
     # join / split are the standard library's inverse pair: where separators go is decided by `[String]::join` and `str::split`, with
     # the separator taken from the keyword argument, over every element in order (no hand-written separator logic to get wrong)
     from engine import kwarg_locals
